@@ -7,11 +7,14 @@ for p in sorted(glob.glob(os.path.join(ROOT, "seeded", "*", "meta.json"))):
     m = json.load(open(p))
     caught = "; ".join(m["caught_by"]) or "-"
     missed = "; ".join(m["missed_by"]) or ""
-    rows.append("| %s | %s | %s | %s | %s |" % (m["id"], m["title"], m["needs_to_manifest"].replace("|", "/"), caught, missed or ("" if m["caught_by"] else "MISSED")))
+    lr = m.get("last_rerun")
+    final = ("caught (%d class%s)" % (len(lr["classes"]), "" if len(lr["classes"]) == 1 else "es") if lr["classes"] else "MISSED") if lr else "not re-run"
+    rows.append("| %s | %s | %s | %s | %s | %s |" % (m["id"], m["title"], m["needs_to_manifest"].replace("|", "/"), caught, missed or ("" if m["caught_by"] else "MISSED"), final))
 out = ["# Seeded changes", "",
        "Each directory holds `patch.diff` (apply with `git -C /repo apply`), `demo.cpp` (fails with the patch, passes without) and `meta.json`.",
        "Every change was written by an independent sub-agent that saw only the property text, compiles, passes the repository's own test suite,",
        "and was confirmed by me in a scratch worktree (`bin/confirm_mutant.sh`). None is ever committed to /repo.", "",
-       "| id | change | needs, to manifest | caught by (check: oracle) | missed by |", "|---|---|---|---|---|"] + rows
+       "The last column is the outcome of the quick check of the change's own property run with the final machinery (`bin/rerun_seeded.sh`), where that was done.", "",
+       "| id | change | needs, to manifest | caught by (check: oracle) | missed by | final machinery |", "|---|---|---|---|---|---|"] + rows
 open(os.path.join(ROOT, "seeded", "README.md"), "w").write("\n".join(out) + "\n")
 print(len(rows), "rows")
